@@ -124,6 +124,9 @@ fn is_fail(a: &cairo_lang_casm::instructions::AssertEqInstruction) -> bool {
     matches!(&a.b, ResOperand::BinOp(BinOpOperand { op: Operation::Add, a: x, b: DerefOrImmediate::Immediate(v) }) if a.a == fp1 && *x == fp1 && v.value.to_i64() == Some(1))
 }
 
+#[path = "../shared/e2e_corpus.rs"]
+mod e2e_corpus;
+
 fn corpus() -> Vec<std::path::PathBuf> {
     let mut out = vec![];
     if let Ok(rd) = std::fs::read_dir("/verif/contracts/native/corpus/c17") { for e in rd.filter_map(|e| e.ok()) { out.push(e.path()); } }
@@ -144,19 +147,23 @@ fn __verif_n_c04_casm_steps() {
     let files = corpus();
     let (mut okf, mut nst, mut npaths, mut skipped) = (0u64, 0usize, 0usize, 0u64);
     let mut fails = vec![];
-    for f in &files {
-        let Ok(src) = std::fs::read_to_string(f) else { continue };
+    let mut inputs: Vec<(String, String)> = files.iter().filter_map(|f| std::fs::read_to_string(f).ok().map(|s| (f.display().to_string(), s))).collect();
+    let e2e = e2e_corpus::e2e_programs(env!("CARGO_MANIFEST_DIR"));
+    let n_e2e = e2e.len();
+    inputs.extend(e2e);
+    let n_inputs = inputs.len();
+    for (name, src) in inputs {
         let h = std::thread::Builder::new().stack_size(128 << 20).spawn(move || catch_unwind(AssertUnwindSafe(|| analyze(&src)))).unwrap();
         match h.join() {
             Ok(Ok(Verdict::Ok(n, p))) => { okf += 1; nst += n; npaths += p; }
-            Ok(Ok(Verdict::Fail(w))) => fails.push((f.display().to_string(), w)),
+            Ok(Ok(Verdict::Fail(w))) => fails.push((name, w)),
             _ => skipped += 1,
         }
     }
-    let bound = format!("{} Sierra programs ({} compiled with gas metadata, {} skipped), {} invocation statements, {} start-to-exit paths", files.len(), okf, skipped, nst, npaths);
+    let bound = format!("{} Sierra programs ({n_e2e} from the e2e test files; {} compiled with gas metadata, {} skipped), {} invocation statements, {} start-to-exit paths", n_inputs, okf, skipped, nst, npaths);
     for (input, why) in &fails {
         let short = input.rsplit('/').next().unwrap_or(input);
         println!("VERIF-N id=N/n_c04_casm_steps/declared_covers_steps:{short} status=fail key=\"{}\" input=\"{input}\" detail=\"{short}: {}\" bound=\"{bound}\"", why.replace('"', "'"), why.replace('"', "'"));
     }
-    if nst > 0 && fails.len() < files.len() { println!("VERIF-N id=N/n_c04_casm_steps/declared_covers_steps status=ok cases={} distinct={} bound=\"{bound}\"", npaths.max(1), nst.max(2)); }
+    if nst > 0 && fails.len() < n_inputs { println!("VERIF-N id=N/n_c04_casm_steps/declared_covers_steps status=ok cases={} distinct={} bound=\"{bound}\"", npaths.max(1), nst.max(2)); }
 }
